@@ -6,7 +6,7 @@
 (* model's step function (Steps.tla - the same operators the models' actions use).  *)
 (* A mismatch means model and code have drifted apart: reported as a binding_       *)
 (* clause (counted, shown, never a property violation by itself).                   *)
-EXTENDS Util, FA, CFG, Steps
+EXTENDS Util, FA, CFG, Steps, RegexCode
 
 BadB(name, cond) == IF cond THEN {name} ELSE {}
 SetOfSets(x) == {ToSet(b) : b \in ToSet(x)}
@@ -25,6 +25,36 @@ JEcTrace(e) ==
                                \/ Todo(k) # EcTodo(E, Res(k - 1), Todo(k - 1), e.pops[k].q))
      \cup BadB("binding_ec_runs_to_completion", Todo(n) # {})
      \cup BadB("binding_ec_returns_final_state", ToSet(e.res) # Res(n))
+
+(* dfa_to_gnfa + gnfa_minimize: the labels after dfa_to_gnfa, the ripped states in order, the final label *)
+JRipTrace(e) ==
+  LET D == FaOf(e.fa)
+      qs == "start"
+      qa == "accept"
+      Qg0 == D.Q \cup {qs, qa}
+      Given(p, q) == {i \in DOMAIN e.gnfa : e.gnfa[i][1] = p /\ e.gnfa[i][2] = q}
+      lab0 == [pq \in Qg0 \X Qg0 |-> IF Given(pq[1], pq[2]) = {} THEN Zero
+                                       ELSE e.gnfa[CHOOSE i \in Given(pq[1], pq[2]) : TRUE][3]]
+      Edge(p, q) == {t[2] : t \in {t \in D.T : t[1] = p /\ t[3] = q}}
+      InitialOk(p, q) ==
+        LET t == lab0[<<p, q>>]
+        IN IF p = qs THEN t = (IF q = D.q0 THEN One ELSE Zero)
+           ELSE IF q = qa THEN t = (IF p \in D.F THEN One ELSE Zero)
+           ELSE IF p = qa \/ q = qs THEN t = Zero
+           ELSE IF Edge(p, q) = {} THEN t = Zero
+           ELSE ToSet(SumSyms(t)) = Edge(p, q) /\ Len(SumSyms(t)) = Cardinality(Edge(p, q))
+      n == Len(e.rips)
+      RECURSIVE St(_)
+      St(k) == IF k = 0 THEN <<Qg0, lab0>>
+               ELSE LET s == St(k - 1) IN <<s[1] \ {e.rips[k]}, RipLabels(s[1], s[2], e.rips[k], qs, qa)>>
+      fin == St(n)
+  IN BadB("binding_rip_initial_labels", \E p, q \in Qg0 : ~InitialOk(p, q))
+     \cup BadB("binding_rip_choice_enabled",
+               \/ ToSet(e.rips) # D.Q \/ n # Cardinality(D.Q))
+     \cup (IF ToSet(e.rips) = D.Q /\ n = Cardinality(D.Q)
+           THEN BadB("binding_rip_step_is_model_step", fin[2][<<qs, qa>>] # e.res)
+           ELSE {})
+     \cup BadB("equivalent_exact", ~ReEquivFa(e.res, D))
 
 (* dfa_hopfcroft: states[k] = (P, W) before the k-th pop, pops[k] = <<W, a>>, final P *)
 JHopTrace(e) ==
